@@ -598,8 +598,79 @@ theorem declaredAt_found (site : Generated.CallSite) (lines : List Str) (name : 
 
 /-! ## one `declared_at`, two reports -/
 
-theorem location_lint_same (b : Binding) (code msg : Str) :
-    (locationEntry b).loc = ((lintEntry code msg b).line, (lintEntry code msg b).col) ∧
-      (locationEntry b).file = b.filename := ⟨rfl, rfl⟩
+theorem sourceMark_pos : 0 < Generated.sourceMark.length := by decide
+
+/-- the un-shift of `location()` undoes the shift of the mark, for every position and cursor -/
+theorem unshift_markedPos (f : Str) (cursor p : Nat × Nat) (b : Binding) (hf : b.filename = f) :
+    (locationEntry f cursor { b with declaredAt := markedPos cursor p }).loc = p := by
+  have hm := sourceMark_pos
+  unfold locationEntry markedPos
+  by_cases h : p.1 = cursor.1 ∧ cursor.2 ≤ p.2
+  · simp only [h, and_self, if_true, hf, true_and]
+    have : p.2 + Generated.sourceMark.length > cursor.2 := by omega
+    simp [this]
+    exact Prod.ext h.1.symm rfl
+  · simp only [h, if_false, hf, true_and]
+    by_cases h1 : p.1 = cursor.1
+    · have : ¬ p.2 > cursor.2 := by
+        intro h2; exact h ⟨h1, by omega⟩
+      simp [h1, this]
+      exact Prod.ext h1.symm rfl
+    · simp [h1]
+
+/-- positions the mark does not move (other line, or left of / at the cursor: an identifier that starts at the cursor
+    absorbs the mark and keeps its column) are reported unchanged -/
+theorem unshift_id (f : Str) (cursor : Nat × Nat) (b : Binding)
+    (h : b.filename ≠ f ∨ b.declaredAt.1 ≠ cursor.1 ∨ b.declaredAt.2 ≤ cursor.2) :
+    (locationEntry f cursor b).loc = b.declaredAt := by
+  unfold locationEntry
+  have : ¬ (b.filename = f ∧ b.declaredAt.1 = cursor.1 ∧ b.declaredAt.2 > cursor.2) := by
+    rintro ⟨h1, h2, h3⟩
+    rcases h with h | h | h
+    · exact h h1
+    · exact h h2
+    · omega
+  simp [this]
+
+/-- the marked analysis sees a binding of the unmarked text at a shifted column iff it lies on the cursor's line at or
+    right of the cursor column -/
+theorem markedPos_ne_iff (cursor p : Nat × Nat) :
+    markedPos cursor p = (p.1, p.2 + Generated.sourceMark.length) ∧ markedPos cursor p ≠ p ↔
+      p.1 = cursor.1 ∧ cursor.2 ≤ p.2 := by
+  have hm := sourceMark_pos
+  unfold markedPos
+  by_cases h : p.1 = cursor.1 ∧ cursor.2 ≤ p.2
+  · simp only [h, and_self, if_true, true_and, iff_true]
+    intro hc
+    have := congrArg Prod.snd hc
+    simp only at this
+    omega
+  · simp only [h, if_false, iff_false]
+    intro hc
+    exact hc.2 rfl
+
+/-- text level: the marked line carries, from the cursor column on, the characters of the line `|MARK|` further right -/
+theorem markLine_drop (line : Str) (col c : Nat) (hcol : col ≤ line.length) (hc : col ≤ c) :
+    (markLine line col).drop (c + Generated.sourceMark.length) = line.drop c := by
+  unfold markLine
+  have h1 : (line.take col).length = col := by simp [List.length_take]; omega
+  rw [List.append_assoc, List.drop_append, h1]
+  have h2 : List.drop (c + Generated.sourceMark.length) (List.take col line) = [] := by
+    apply List.drop_eq_nil_of_le; rw [h1]; omega
+  rw [h2, List.nil_append, List.drop_append]
+  have h3 : List.drop (c + Generated.sourceMark.length - col) Generated.sourceMark = [] := by
+    apply List.drop_eq_nil_of_le; omega
+  rw [h3, List.nil_append, List.drop_drop]
+  congr 1
+  omega
+
+/-- ... and is unchanged left of the cursor -/
+theorem markLine_take (line : Str) (col c : Nat) (hcol : col ≤ line.length) (hc : c ≤ col) :
+    (markLine line col).take c = line.take c := by
+  unfold markLine
+  have h1 : (line.take col).length = col := by simp [List.length_take]; omega
+  rw [List.append_assoc, List.take_append, h1, List.take_take]
+  have : c - col = 0 := by omega
+  simp [this, Nat.min_eq_left hc]
 
 end SuppModel.Text
